@@ -254,6 +254,42 @@ pub fn generate(args: &Args) -> Vec<String> {
             .collect();
         l.push(format!("listmap {} {}", if i % 3 == 2 { "indexed" } else { "keyed" }, show_lists(&chain)));
     }
+    // (4) LONG lists: an update whose changed window (what is left after the common prefix and suffix) has every length
+    //     2..=16 (thorough: ..=24), with 0-3 unchanged items before and after; inside the window: reversed, rotated by one
+    //     and by half, ends swapped, shuffled (first and last moved, so the window is exact), half of the keys replaced;
+    //     then back to the first list (a chain of three)
+    let maxw = if thorough { 24 } else { 16 };
+    for w in 2..=maxw {
+        for (pre, suf) in [(0usize, 0usize), (1, 0), (0, 2), (3, 1)] {
+            let base: Vec<u32> = (1..=(pre + w + suf) as u32).collect();
+            let win = |f: &dyn Fn(&mut Vec<u32>)| -> Vec<u32> {
+                let mut mid: Vec<u32> = base[pre..pre + w].to_vec();
+                f(&mut mid);
+                let mut v = base[..pre].to_vec(); v.extend(mid); v.extend(&base[pre + w..]); v
+            };
+            let mut variants: Vec<Vec<u32>> = vec![
+                win(&|m| m.reverse()),
+                win(&|m| m.rotate_left(1)),
+                win(&|m| m.rotate_right(1)),
+                win(&|m| { let h = m.len() / 2; m.rotate_left(h.max(1)) }),
+                win(&|m| { let n = m.len(); m.swap(0, n - 1) }),
+                win(&|m| { let n = m.len(); for i in (0..n).step_by(2) { m[i] += 100; } m.swap(0, n - 1) }),
+            ];
+            for _ in 0..(if thorough { 4 } else { 1 }) {
+                let mut sh = base[pre..pre + w].to_vec();
+                for i in (1..sh.len()).rev() { let j = rng.below(i + 1); sh.swap(i, j); }
+                if sh[0] == base[pre] { sh.rotate_left(1); }
+                if sh[w - 1] == base[pre + w - 1] { sh.swap(0, w - 1); }
+                let mut v = base[..pre].to_vec(); v.extend(sh); v.extend(&base[pre + w..]);
+                variants.push(v);
+            }
+            let f = |x: &Vec<u32>, pay: u32| x.iter().map(|k| (*k, pay)).collect::<Vec<Item>>();
+            for v in &variants {
+                l.push(format!("listmap keyed {}", show_lists(&[f(&base, 0), f(v, 0), f(&base, 0)])));
+                if pre == 0 && suf == 0 { l.push(format!("listmap indexed {}", show_lists(&[f(&base, 0), f(v, 0), f(&base, 1)]))); }
+            }
+        }
+    }
     l
 }
 
